@@ -389,7 +389,7 @@ func c18Twins(c *Ctx) {
 		checked[bo] = true
 		flag := fd.Type.Params.List[len(fd.Type.Params.List)-1].Names[0]
 		flagObj := info.Defs[flag]
-		c18FlagRegions(c, r, fd, flagObj, info)
+		c18FlagRegions(c, r, fd, flagObj, info, bodies, checked)
 	}
 }
 
@@ -404,7 +404,7 @@ func calleeObj(info *types.Info, ce *ast.CallExpr) types.Object {
 }
 
 // c18FlagRegions checks every statement that depends on the suggestion flag.
-func c18FlagRegions(c *Ctx, r *RuleResult, fd *ast.FuncDecl, flag types.Object, info *types.Info) {
+func c18FlagRegions(c *Ctx, r *RuleResult, fd *ast.FuncDecl, flag types.Object, info *types.Info, bodies map[types.Object]*ast.FuncDecl, checked map[types.Object]bool) {
 	p := c.P
 	fname := "rules." + fd.Name.Name
 	mentions := func(n ast.Node) bool {
@@ -532,6 +532,27 @@ func c18FlagRegions(c *Ctx, r *RuleResult, fd *ast.FuncDecl, flag types.Object, 
 			if !ok {
 				// any other use of the flag (assignment, argument, switch) is not understood
 				if id, ok := x.(*ast.Ident); ok && info.Uses[id] == flag {
+					// handed on to a helper of the package as an argument: the helper's parameter is the flag there
+					if ce, isCall := parentOf[id].(*ast.CallExpr); isCall {
+						if o := calleeObj(info, ce); o != nil && bodies[o] != nil {
+							hd := bodies[o]
+							var params []*ast.Ident
+							for _, f := range hd.Type.Params.List {
+								params = append(params, f.Names...)
+							}
+							for i, a := range ce.Args {
+								if a == ast.Expr(id) && i < len(params) {
+									if po := info.Defs[params[i]]; po != nil {
+										if !checked[po] {
+											checked[po] = true
+											c18FlagRegions(c, r, hd, po, info, bodies, checked)
+										}
+										return true
+									}
+								}
+							}
+						}
+					}
 					// reached only when not inside a recognised if condition (those return false below)
 					r.Undecided(id.Pos(), fname, "flag use "+render(p.Fset, id), "the suggestion flag is used outside a plain `if flag` / `if !flag` condition; the region it influences is not decided")
 				}
@@ -590,6 +611,23 @@ func c18FlagRegions(c *Ctx, r *RuleResult, fd *ast.FuncDecl, flag types.Object, 
 				switch e.kind {
 				case "adderror":
 					dErr = append(dErr, e)
+				case "assign-outer":
+					// `report := withSuggestions; if flag { report = plain }`: the two functions are the arms
+					if de, ee, ok := twinFunctionChoice(e.node, info, bodies); ok {
+						dd := collect(de.Body, map[types.Object]bool{})
+						for _, x := range dd {
+							if x.kind == "adderror" {
+								dErr = append(dErr, x)
+							} else {
+								fail(x.node, x.kind, "the function chosen with suggestions disabled executes "+render(p.Fset, x.node)+", which is more than reporting the error")
+							}
+						}
+						for _, x := range collect(ee.Body, map[types.Object]bool{}) {
+							eEff = append(eEff, x)
+						}
+						continue
+					}
+					fail(e.node, e.kind, "with suggestions disabled the rule executes "+render(p.Fset, e.node)+", which the standard rule does not: the variant would not report the same errors")
 				default:
 					fail(e.node, e.kind, "with suggestions disabled the rule executes "+render(p.Fset, e.node)+", which the standard rule does not: the variant would not report the same errors")
 				}
@@ -929,4 +967,52 @@ func taggingParam(mk *ssa.Function, errT *types.Named) int {
 		}
 	}
 	return -1
+}
+
+// twinFunctionChoice: node is `v = G` where v was declared `v := F`, F and G being functions of the package with the
+// same signature: G is what runs with suggestions disabled, F with them enabled.
+func twinFunctionChoice(node ast.Node, info *types.Info, bodies map[types.Object]*ast.FuncDecl) (disabled, enabled *ast.FuncDecl, ok bool) {
+	as, isAs := node.(*ast.AssignStmt)
+	if !isAs || as.Tok != token.ASSIGN || len(as.Lhs) != 1 || len(as.Rhs) != 1 {
+		return nil, nil, false
+	}
+	lhs, isId := as.Lhs[0].(*ast.Ident)
+	rhs, isId2 := as.Rhs[0].(*ast.Ident)
+	if !isId || !isId2 {
+		return nil, nil, false
+	}
+	g := bodies[info.Uses[rhs]]
+	v := info.Uses[lhs]
+	if g == nil || v == nil {
+		return nil, nil, false
+	}
+	// the declaration of v: v := F
+	var f *ast.FuncDecl
+	// search the package syntax for `v := F`
+	for _, fd := range bodies {
+		if fd.Body == nil {
+			continue
+		}
+		ast.Inspect(fd.Body, func(x ast.Node) bool {
+			ds, ok := x.(*ast.AssignStmt)
+			if !ok || ds.Tok != token.DEFINE || len(ds.Lhs) != 1 || len(ds.Rhs) != 1 {
+				return true
+			}
+			li, ok := ds.Lhs[0].(*ast.Ident)
+			if !ok || info.Defs[li] != v {
+				return true
+			}
+			if ri, ok := ds.Rhs[0].(*ast.Ident); ok {
+				f = bodies[info.Uses[ri]]
+			}
+			return true
+		})
+	}
+	if f == nil || f == g {
+		return nil, nil, false
+	}
+	if !types.Identical(info.Defs[f.Name].Type(), info.Defs[g.Name].Type()) {
+		return nil, nil, false
+	}
+	return g, f, true
 }
